@@ -33,6 +33,13 @@ Proof.
 Qed.
 Print Assumptions C15_accepted_complete.
 
+(* the two guards of the model are the guards of the source (GENERATED from the conditions in send()): without the
+   dedicated fragment channel, and with it counted in *)
+Theorem C15_guards_tied : forall nfds, 0 <= nfds < 2 ^ 62 ->
+  send_too_many nfds = (MAX_FDS_IN_CMSG <? nfds) /\ send_too_many_frag nfds = (MAX_FDS_IN_CMSG <? nfds + 1).
+Proof. intros nfds H. split; [apply send_too_many_eq|apply send_too_many_frag_eq; exact H]. Qed.
+Print Assumptions C15_guards_tied.
+
 (* non-vacuity and the reason the guard is needed: the kernel model cuts a 65-descriptor control
    message to 64 (what the unguarded code did); the guarded send refuses 65, and 64 when it must fragment *)
 Example C15_ex :
